@@ -6,12 +6,14 @@ SPEC = dict(
     harness="c35.cpp",
     validate_mode=True,
     theorems=[
-        # whole trees: refine with the repaired rule set preserves the value (Max/Min-free expressions)
+        # whole trees: refine with the repaired rule set preserves the value
         "SymVerif.C35.refine_value_partial",
         "SymVerif.C35.refineF_value",
         # the rules of RefineVisitor on a node whose argument is unchanged
         "SymVerif.C35.ruleOne_value",
         "SymVerif.C35.rulePow_value",
+        "SymVerif.C35.maxRule_value",
+        "SymVerif.C35.minRule_value",
         # SimplifyVisitor::simplify_pow
         "SymVerif.C35.simplifyPow_value",
         # TransformVisitor contexts and the raw constructors the model rebuilds with
@@ -35,9 +37,7 @@ SPEC = dict(
          "pi, alone or inside a sum / product context, under random per-symbol assumption sets (domain x sign facts); "
          "distinct = distinct op lines; non-trivial = all but trivial-arith; impl_stats gives changed/unchanged results and "
          "the number of evaluated points",
-    not_covered=["RefineVisitor::bvisit(Max/Min): modelled and compared, no value theorem (refine_value_partial assumes a "
-                 "Max/Min-free expression)",
-                 "simplify over whole trees: the rule simplify_pow is proved (simplifyPow_value), the composition over the "
+    not_covered=["simplify over whole trees: the rule simplify_pow is proved (simplifyPow_value), the composition over the "
                  "raw trees refine returns is not",
                  "rules applied to an argument that refine itself changed (the queries then run on a rebuilt, re-canonicalised "
                  "tree): driver answers SKIP:unmodelled, the oracle still judges those inputs",
@@ -49,9 +49,9 @@ SPEC = dict(
                  "decide that the library's re-canonicalised result and the model's raw result are the same expression; its "
                  "core (NF.equiv) is proven sound in Props/C07, the argument normalisation around it is trusted"],
     level_text="Lean theorems over an executable model of RefineVisitor/SimplifyVisitor built on the C34 query model: "
-               "refine_value_partial - for every statement list, satisfying assignment and Max/Min-free expression with a "
+               "refine_value_partial - for every statement list, satisfying assignment and expression with a "
                "real value, the model's refine (repaired Pow rule) returns an expression with the same value; every "
-               "modelled rewrite rule (abs, sign, floor, ceiling, conjugate, log of a power / of a perfect power, the repaired "
+               "modelled rewrite rule (abs, sign, floor, ceiling, conjugate, max, min, log of a power / of a perfect power, the repaired "
                "power-of-a-power rule, csc/sec/cot**-1) preserves the real value wherever the input has one, for every "
                "assignment satisfying the assumptions; the guards are discharged with the C34 soundness theorems. The model's "
                "result is compared with the library's result on every generated input (certificate mode), and an independent "
@@ -61,6 +61,6 @@ SPEC = dict(
                "SKIP:known-D16 where only the former matches, so the correspondence is green before and after the fix.",
     technique="case analysis per rule with C34 soundness as lemmas, Real.rpow_mul / Even.pow_abs / Real.log_rpow, exact "
               "rational arithmetic for the exponent product; certificate-mode correspondence + value oracle",
-    partial=["refine_value_partial: Max/Min-free expressions, real values, rule nodes whose argument is unchanged by refine",
-             "simplify: rule-level theorem only", "Max/Min rule: no theorem"],
+    partial=["refine_value_partial: real values, rule nodes whose argument is unchanged by refine",
+             "simplify: rule-level theorem only"],
 )
